@@ -89,7 +89,7 @@ SCOPE = {
 }
 FLOOR = {"quick": 8000, "thorough": 30000}
 REQUIRED_MONITORS = [
-    "alt.single", "alt.collection", "alt.parent", "lift.single", "lift.collection", "lift.deleted-empty", "lift.sequenceless",
+    "incorporate.repeatable", "alt.single", "alt.collection", "alt.parent", "lift.single", "lift.collection", "lift.deleted-empty", "lift.sequenceless",
     "incorporate.feature", "incorporate.transcript", "incorporate.cds", "incorporate.cds-frame", "incorporate.deleted",
     "incorporate.gene", "incorporate.feature-collection", "incorporate.annotation-collection", "incorporate.haplotype-map",
     "vcf.grouping", "vcf.alleles",
@@ -562,6 +562,21 @@ def _check_intervals(ctx, hap, loc, j, variants_obj, H, tag):
     new, exc = ctx.call(cds.incorporate_variants, variants_obj)
     if _judge_interval(ctx, "incorporate.cds", tag + "cds", H, blocks, strand, new, exc, hap.start):
         _check_cds_frame(ctx, tag + "cds", H, hap.seq, blocks, strand, frame, cds, new)
+    # incorporation builds NEW objects: asked a second time on the same operands it answers the same, and feature / transcript / CDS
+    # and the variants are what they were (dictionary forms before the first and after the second incorporation)
+    if j % 2 == 0:
+        for kind, obj in (("feature", ft), ("transcript", tx), ("cds", cds)):
+            d0, e0 = ctx.call(obj.to_dict)
+            v0, ev = ctx.call(variants_obj.to_dict)
+            a, ea = ctx.call(obj.incorporate_variants, variants_obj)
+            b, eb = ctx.call(obj.incorporate_variants, variants_obj)
+            d1, e1 = ctx.call(obj.to_dict)
+            v1, _ = ctx.call(variants_obj.to_dict)
+            same = (ea is None) == (eb is None) and (type(ea) is type(eb)) and (ea is not None or _read(a.chunk_relative_location) == _read(b.chunk_relative_location))
+            ctx.check("incorporate.repeatable", same, key=(tag + kind, "second-incorporation-differs"), first=repr(a)[:120] if ea is None else repr(ea)[:120],
+                      second=repr(b)[:120] if eb is None else repr(eb)[:120], **_detail(H, blocks, strand, where=kind))
+            ctx.check("incorporate.repeatable", e0 is None and e1 is None and d0 == d1 and (ev is not None or v0 == v1), key=(tag + kind, "operand-changed"),
+                      **_detail(H, blocks, strand, where=kind))
     return (ft if ok_f else None), (tx if ok_t else None)
 
 
